@@ -678,7 +678,7 @@ func (w *world) doBegin(s Step) {
 	w.all = append(w.all, t)
 	w.cur[ci] = t
 	w.logf("begin client %d %s %s conn=%q deadline=%dms", ci, t.path, t.mode(), t.conn, deadline)
-	if sweep {
+	if sweep && w.short() {
 		w.epoch++
 	}
 	w.issue(t, deadline)
@@ -709,7 +709,6 @@ func (w *world) doBegin(s Step) {
 		w.features["late_begin"] = true
 		w.features["late_begin_"+t.mode()] = true
 		w.logf("  timed out: %v", call.err)
-		return
 	}
 	w.settle()
 }
